@@ -28,16 +28,18 @@ DRIVER = "dm_reduce"
 LEAN_MODULES = ["DaskModel.Props.C31"]
 CASE_TIMEOUT_S = 30
 LEVEL_TEXT = (
-    "PARTIAL. Proved in Lean 4: tensordot_blocks / tensordot_blocks₂ / matmul_blocks — for every chunking of the "
-    "contracted axis (axes) the per-block partial contractions add up to the full contraction (any additive monoid / "
-    "semiring, no size bound), tensordot_chunking_irrelevant, contraction_tree_sum (the final sum as a K1 tree, any "
-    "split_every); the tsqr stacking plan (stackGroups_flatten: groups are consecutive runs of all R blocks in order; "
-    "stackGroups_nonempty; cumsumBlocks_spec: unstacking slices tile [0,Σ)); TSQR block algebra over a commutative ring "
-    "with Mathlib matrices for ANY number of row blocks of any heights (tsqr_n_blocks: A_i = Q_i R_i and [R_1;…;R_N] = Q'R' "
-    "⇒ A = (blockdiag(Q_i) Q') R'; tsqr_n_blocks_orthonormal; tsqr_recursive: the recursive level composes; "
-    "sfqr_n_blocks for any number of column blocks; svd_from_qr, svd_from_qr_orthonormal; the two-block versions). NOT "
-    "proved: that the graph dask builds wires exactly these products (validated: tsqrplan diff + residual checks), einsum's index bookkeeping, and anything numerical — "
-    "orthonormality, triangularity, residuals and singular values are validated against NumPy within tolerance."
+    "PARTIAL. Proved in Lean 4: tensordot_blocks / tensordot_blocks₂ / matmul_blocks — for every chunking of the contracted "
+    "axis (axes) the per-block partial contractions add up to the full contraction (any additive monoid / semiring, no size "
+    "bound), einsum_blocks (ANY number of contracted indices, each with its own chunking: the partial sums over the product "
+    "grid of blocks add up to the full contraction — einsum's contract_inds), tensordot_chunking_irrelevant / "
+    "einsum_chunking_irrelevant, contraction_tree_sum (the final sum as a K1 tree, any split_every); the tsqr stacking plan "
+    "(stackGroups_flatten: groups are consecutive runs of all R blocks in order; stackGroups_nonempty; cumsumBlocks_spec: "
+    "unstacking slices tile [0,Σ)); TSQR block algebra over a commutative ring with Mathlib matrices for ANY number of row "
+    "blocks of any heights (tsqr_n_blocks: A_i = Q_i R_i and [R_1;…;R_N] = Q'R' ⇒ A = (blockdiag(Q_i) Q') R'; "
+    "tsqr_n_blocks_orthonormal; tsqr_recursive; sfqr_n_blocks; svd_from_qr, svd_from_qr_orthonormal; the two-block versions). "
+    "NOT proved: that the graph dask builds wires exactly these products (validated: tsqrplan diff + residual checks), "
+    "einsum's subscript parsing and the mapping of subscripts to blockwise indices, outer, result dtypes, and anything "
+    "numerical — orthonormality, triangularity, residuals and singular values are validated against NumPy within tolerance."
 )
 LEVEL_NOTE = ("Trusted: np.tensordot/np.einsum/np.matmul on one block, LAPACK QR/SVD (np.linalg.qr/svd), NumPy as the "
               "reference; exactness theorems are over exact rings, floating-point accuracy is only checked by tolerance.")
